@@ -335,7 +335,7 @@ ALL = ["ctor", "append", "requires", "seqreq", "add", "update", "remove", "newjo
 def harnesses(tier):
     if tier == "quick":
         return [program_harness("two-statements", 2, ALL, "reduced"),
-                program_harness("three-statements-core", 3, ["ctor", "append", "requires"], "mini")]
+                program_harness("three-statements-core", 3, ["ctor", "append", "requires", "seqreq"], "mini")]
     return [program_harness("two-statements-full", 2, ALL, "full"),
             program_harness("three-statements", 3, ALL, "reduced"),
             program_harness("four-statements-core", 4, ["ctor", "append", "requires"], "mini")]
